@@ -64,9 +64,12 @@ type Node struct {
 	NoRejoin    bool   // next starts use `-join false`
 	JoinVia     string // next starts join through this address instead of node 1's
 
-	rpcMu     sync.Mutex
-	rpcFaults map[string]RPCFault // gRPC full method -> fault ("*" = every method)
-	rpcLog    []RPCRecord
+	// OnStreamDone, when set before traffic starts, is called after a streaming handler of this node returned
+	// (method short name, first request message, handler error).
+	OnStreamDone func(method string, req interface{}, err error)
+	rpcMu        sync.Mutex
+	rpcFaults    map[string]RPCFault // gRPC full method -> fault ("*" = every method)
+	rpcLog       []RPCRecord
 
 	runMu    sync.Mutex
 	runLoops map[uuid.UUID]int // group -> live run loops of the current incarnation
@@ -78,6 +81,9 @@ type RPCFault struct {
 	Delay time.Duration
 	Err   error
 	Hang  bool // block until the caller gives up
+	// Gate, when set, is called with the request before Err is returned (after Delay): it may
+	// block, e.g. until another node has finished answering the same query.
+	Gate func(ctx context.Context, req interface{})
 }
 
 type RPCRecord struct {
@@ -660,6 +666,13 @@ func (n *Node) SetFault(method string, f RPCFault) {
 	n.rpcMu.Unlock()
 }
 
+// SetOnStreamDone installs the stream-completion callback.
+func (n *Node) SetOnStreamDone(f func(method string, req interface{}, err error)) {
+	n.rpcMu.Lock()
+	n.OnStreamDone = f
+	n.rpcMu.Unlock()
+}
+
 func (n *Node) ClearFaults() {
 	n.rpcMu.Lock()
 	n.rpcFaults = map[string]RPCFault{}
@@ -706,6 +719,9 @@ func (n *Node) fault(ctx context.Context, method string, req interface{}) error 
 			return ctx.Err()
 		}
 	}
+	if f.Gate != nil {
+		f.Gate(ctx, req)
+	}
 	return f.Err
 }
 
@@ -722,6 +738,7 @@ type recStream struct {
 	method string
 	first  bool
 	err    error
+	req    interface{}
 }
 
 func (s *recStream) RecvMsg(m interface{}) error {
@@ -730,6 +747,7 @@ func (s *recStream) RecvMsg(m interface{}) error {
 	}
 	if !s.first {
 		s.first = true
+		s.req = m
 		s.err = s.n.fault(s.Context(), s.method, m)
 	}
 	return s.err
@@ -739,7 +757,15 @@ func (n *Node) stream(srv interface{}, ss grpc.ServerStream, info *grpc.StreamSe
 	if n.Dead() {
 		return ErrNodeDown
 	}
-	return handler(srv, &recStream{ServerStream: ss, n: n, method: info.FullMethod})
+	rs := &recStream{ServerStream: ss, n: n, method: info.FullMethod}
+	err := handler(srv, rs)
+	n.rpcMu.Lock()
+	f := n.OnStreamDone
+	n.rpcMu.Unlock()
+	if f != nil && rs.req != nil {
+		f(info.FullMethod[strings.LastIndex(info.FullMethod, "/")+1:], rs.req, err)
+	}
+	return err
 }
 
 // ---- dataset helpers --------------------------------------------------------
